@@ -1401,3 +1401,89 @@ pub mod vtunnel {
         }
     }
 }
+
+// ---------------------------------------------------------------------------------------
+// Shutdown (C19): hand-polled participants
+
+pub mod vshutdown {
+    use crate::shutdown::{CompletionGuard, Notification, Shutdown};
+    use std::future::Future;
+    use std::pin::Pin;
+    use std::sync::{Arc, Mutex};
+    use std::task::{Context, Poll, RawWaker, RawWakerVTable, Waker};
+
+    fn noop_waker() -> Waker {
+        fn clone(_: *const ()) -> RawWaker {
+            RawWaker::new(std::ptr::null(), &VTABLE)
+        }
+        fn noop(_: *const ()) {}
+        static VTABLE: RawWakerVTable = RawWakerVTable::new(clone, noop, noop, noop);
+        unsafe { Waker::from_raw(RawWaker::new(std::ptr::null(), &VTABLE)) }
+    }
+
+    fn poll_once<F: Future>(f: F) -> Option<F::Output> {
+        let waker = noop_waker();
+        let mut cx = Context::from_waker(&waker);
+        let mut f = Box::pin(f);
+        match Pin::new(&mut f).poll(&mut cx) {
+            Poll::Ready(x) => Some(x),
+            Poll::Pending => None,
+        }
+    }
+
+    pub struct VShutdown {
+        pub inner: Arc<Mutex<Shutdown>>,
+        parts: Vec<Option<(Notification, Option<CompletionGuard>)>>,
+    }
+
+    impl Default for VShutdown {
+        fn default() -> Self {
+            Self { inner: Shutdown::new(), parts: vec![] }
+        }
+    }
+
+    impl VShutdown {
+        /// what `Tunnel::listen` does first: `(notification_handler(), completion_guard())`
+        pub fn register(&mut self) -> (usize, bool) {
+            let (n, g) = {
+                let s = self.inner.lock().unwrap();
+                (s.notification_handler(), s.completion_guard())
+            };
+            let has = g.is_some();
+            self.parts.push(Some((n, g)));
+            (self.parts.len() - 1, has)
+        }
+
+        /// `ready` | `pending` | `closed` | `none`
+        pub fn wait_poll(&mut self, i: usize) -> &'static str {
+            match self.parts.get_mut(i) {
+                Some(Some((n, _))) => match poll_once(n.wait()) {
+                    Some(Ok(())) => "ready",
+                    Some(Err(_)) => "closed",
+                    None => "pending",
+                },
+                Some(None) => "pending",
+                None => "none",
+            }
+        }
+
+        pub fn submit(&self) {
+            self.inner.lock().unwrap().submit();
+        }
+
+        pub fn finish(&mut self, i: usize) {
+            if let Some(p) = self.parts.get_mut(i) {
+                *p = None;
+            }
+        }
+
+        /// `done` | `pending`
+        pub fn completion_poll(&self) -> &'static str {
+            let mut s = self.inner.lock().unwrap();
+            match poll_once(s.completion()) {
+                Some(()) => "done",
+                None => "pending",
+            }
+        }
+    }
+}
